@@ -80,8 +80,7 @@ def _history_async(rng, n_msgs, rank, p_msg=0.62):
         ev = []
         tr = s.conn_transport()
         tap = QueueTap(spa._protocol, s.loop)
-        for i in range(n_msgs):
-            r = rng.random()
+        def settle():
             # a refresh that overlaps a change of the spa's block is a race of the protocol
             # itself (stale bytes fetched before the change are installed after it); steps are
             # therefore taken only while no transfer is in flight
@@ -89,47 +88,71 @@ def _history_async(rng, n_msgs, rank, p_msg=0.62):
                 raise env.MachineryError("connection never became quiescent")
             for x in w.take():
                 ev.append({"k": "refresh", "off": x["pos"], "data": x["data"]})
+
+        def do_msg(ch):
+            settle()
             nsent = len(tr.sent)
-            if r < p_msg:
-                ch = _gen_message(rng, hot)
-                for pos, data in ch:
-                    sim_struct.replace_status_block_segment(pos, data)
-                ntap = len(tap.log)
-                s.inject(s.peer.push_changes(s.client_parms(), ch))
-                s.advance(rng.choice([0.11, 0.25, 0.5]))
-                for _ in range(30):
-                    # a datagram may wait behind an unclaimed head for a few polls (C07)
-                    if any(e["k"] == "pop" and "Partial" in e["by"] for e in tap.log[ntap:]):
-                        break
-                    s.advance(0.1)
-                s.advance(0.05)
-                inst = w.take()
-                applied = [{"pos": x["pos"], "data": x["data"]} for x in inst if "Partial" in x["by"]]
-                others = [x for x in inst if "Partial" not in x["by"]]
-                ev.append({"k": "msg", "ch": [{"pos": p, "data": list(d)} for p, d in ch],
-                           "applied": applied,
-                           "acks": _acks(d for (_, d, _) in tr.sent[nsent:]),
-                           "queue": [{k: (v if k != "data" else v[:24].decode("latin1")) for k, v in e.items()}
-                                     for e in tap.log[ntap:]][:14]})
-                for x in others:
-                    ev.append({"k": "refresh", "off": x["pos"], "data": x["data"]})
+            for pos, data in ch:
+                sim_struct.replace_status_block_segment(pos, data)
+            ntap = len(tap.log)
+            s.inject(s.peer.push_changes(s.client_parms(), ch))
+            s.advance(rng.choice([0.11, 0.25, 0.5]))
+            for _ in range(30):
+                # a datagram may wait behind an unclaimed head for a few polls (C07)
+                if any(e["k"] == "pop" and "Partial" in e["by"] for e in tap.log[ntap:]):
+                    break
+                s.advance(0.1)
+            s.advance(0.05)
+            inst = w.take()
+            applied = [{"pos": x["pos"], "data": x["data"]} for x in inst if "Partial" in x["by"]]
+            others = [x for x in inst if "Partial" not in x["by"]]
+            ev.append({"k": "msg", "ch": [{"pos": p, "data": list(d)} for p, d in ch],
+                       "applied": applied,
+                       "acks": _acks(d for (_, d, _) in tr.sent[nsent:]),
+                       "queue": [{k: (v if k != "data" else v[:24].decode("latin1")) for k, v in e.items()}
+                                 for e in tap.log[ntap:]][:14]})
+            for x in others:
+                ev.append({"k": "refresh", "off": x["pos"], "data": x["data"]})
+
+        def do_silent(pos, v):
+            settle()
+            blk = sim_struct.status_block
+            sim_struct.set_status_block(blk[:pos] + bytes([v]) + blk[pos + 1:])
+            ev.append({"k": "silent", "pos": pos, "v": v})
+
+        def do_get(off, ln):
+            settle()
+            ok = s.run(spa.struct.get(
+                spa._protocol,
+                lambda: GeckoStatusBlockProtocolHandler.request(
+                    spa._protocol.get_and_increment_sequence_counter(False), off, ln, parms=spa.sendparms)))
+            for x in w.take():
+                ev.append({"k": "refresh", "off": x["pos"], "data": x["data"]})
+            # the call's return: a refresh that reports success has made the range equal the spa's
+            ev.append({"k": "got", "off": off, "len": ln, "ok": bool(ok)})
+
+        for i in range(n_msgs):
+            r = rng.random()
+            if r < 0.04 or i == 3:
+                # a value that comes back: refresh, reported change, unreported change back, the
+                # same refresh again (byte-identical to the first)
+                pos = rng.choice(hot)
+                off = max(0, pos - rng.randrange(0, 40))
+                ln = min(rng.choice([2, 39, 40, 100]), 1024 - off)
+                old = sim_struct.status_block[pos]
+                do_get(off, ln)
+                do_msg([(pos, bytes([(old + 1 + rng.randrange(255)) % 256, sim_struct.status_block[pos + 1]]))])
+                do_silent(pos, old)
+                do_get(off, ln)
+            elif r < p_msg:
+                do_msg(_gen_message(rng, hot))
             elif r < p_msg + 0.18:
                 pos = rng.choice(hot)
-                v = (sim_struct.status_block[pos] + 1 + rng.randrange(255)) % 256
-                blk = sim_struct.status_block
-                sim_struct.set_status_block(blk[:pos] + bytes([v]) + blk[pos + 1:])
-                ev.append({"k": "silent", "pos": pos, "v": v})
+                do_silent(pos, (sim_struct.status_block[pos] + 1 + rng.randrange(255)) % 256)
             else:
                 pos = rng.choice(hot)
                 off = max(0, pos - rng.randrange(0, 40))
-                ln = rng.choice([1, 2, 39, 40, 100])
-                ln = min(ln, 1024 - off)
-                ok = s.run(spa.struct.get(
-                    spa._protocol,
-                    lambda: GeckoStatusBlockProtocolHandler.request(
-                        spa._protocol.get_and_increment_sequence_counter(False), off, ln, parms=spa.sendparms)))
-                for x in w.take():
-                    ev.append({"k": "refresh", "off": x["pos"], "data": x["data"]})
+                do_get(off, min(rng.choice([1, 2, 39, 40, 100]), 1024 - off))
         for x in w.take():
             ev.append({"k": "refresh", "off": x["pos"], "data": x["data"]})
         ev.append({"k": "final", "block": list(spa.struct.status_block)})
@@ -168,8 +191,13 @@ def _history_sync(rng, n_msgs, p_msg=0.62):
             else:
                 spa.refresh()
                 s.pump(80)
-                for x in w.take():
+                inst = w.take()
+                for x in inst:
                     ev.append({"k": "refresh", "off": x["pos"], "data": x["data"]})
+                # fire-and-forget in this stack: completion is known because the stepped network loses
+                # nothing and the engine has drained; the range is the one refresh() asks for
+                b = spa.new_log_class.begin
+                ev.append({"k": "got", "off": b, "len": min(spa.new_log_class.end, 1024 - b), "ok": True})
         ev.append({"k": "final", "block": list(spa.struct.status_block)})
         return {"init": init, "ev": ev, "variant": "sync"}
 
@@ -212,6 +240,8 @@ def run(ctx):
                 k = v["matched"]
                 e = lg["ev"][k] if k < len(lg["ev"]) else {"k": "end"}
                 clause = (v["why"] or ["event does not match the specification"])[0]
+                if e["k"] == "got" and not v["why"]:
+                    clause = "refresh-reported-success-but-range-differs-from-spa"
                 if e["k"] == "msg" and not v["why"]:
                     if len(e["acks"]) != 1:
                         clause = "one-ack-per-message"
